@@ -228,7 +228,7 @@ def index_loop_sites(fn):
     from . import symex as S_
     res = set()
     try:
-        ils = S_.find_index_loops(fn)
+        ils = dict(S_.find_index_loops(fn, worklists=True))     # (work-list counters too: their `+ 1` is under `i < len` as well)
         loops = fn.natural_loops()
     except Exception:
         return res
@@ -248,6 +248,8 @@ def index_loop_sites(fn):
             if t["k"] == "assert" and "Overflow" in t["msg"]:
                 if any(st["k"] == "assign" and st["rv"]["k"] == "binop" and st["rv"]["op"] == "AddWithOverflow" and is_counter(st["rv"]["a"]) and st["rv"]["b"].get("k") == "const" for st in fn.blocks[bb]["stmts"]):
                     res.add(bb)
+            if il.get("worklist"):
+                continue        # (the collection changes inside the loop: only the counter's increment is discharged)
             if t["k"] == "call" and re.search(r"ops::Index<usize>>::index$", M.call_name(t)) and len(t["args"]) == 2 and is_counter(t["args"][1]):
                 a0 = t["args"][0]
                 d0 = fn.single_def(a0["p"]["l"]) if a0.get("k") in ("copy", "move") and not a0["p"]["pj"] else None
